@@ -261,8 +261,8 @@ def run(chk):
                 a = strip_casts(a)
                 if a is test[0] and not t and test[0]["name"] in ("count", "contains"):
                     guarded = True
-                if a.get("k") == "binop" and a.get("op") in ("==", "!="):
-                    l, r = strip_casts(a["lhs"]), strip_casts(a["rhs"])
+                if (a.get("k") == "binop" and a.get("op") in ("==", "!=")) or (a.get("k") == "call" and a.get("op") in ("==", "!=") and len(a.get("args") or []) == 2):
+                    l, r = (strip_casts(a["lhs"]), strip_casts(a["rhs"])) if a.get("k") == "binop" else (strip_casts(a["args"][0]), strip_casts(a["args"][1]))
                     for x, y in ((l, r), (r, l)):
                         if x is test[0] and test[0]["name"] == "count" and y.get("k") == "lit" and y.get("v") == 0 and (a["op"] == "==") == t:
                             guarded = True
@@ -280,11 +280,18 @@ def run(chk):
         for h in t["handlers"]:
             if not h.get("all") and "file_not_found_error" in prog.T(f, h.get("t")):
                 why = "the file_not_found_error handler does not rethrow when the error's filename differs from the path being tried"
-                for x in walk(h["body"]):
-                    if x.get("k") == "if" and always_exits(x.get("then")) and any(y.get("k") == "throw" and y.get("rethrow") for y in walk(x["then"])):
-                        c = expr_str(prog, f, x["cond"])
-                        if "filename" in c and "!=" in c:
-                            okh = True
+                # every bare `throw;` in the handler is reached exactly when the error's file name differs from the path being tried:
+                # `if (e.filename != p) throw;` or `if (e.filename == p) continue; throw;`
+                hflow = FnFlow(f)
+                rethrows = [y for y in walk(h["body"]) if y.get("k") == "throw" and y.get("rethrow")]
+                good = 0
+                for y in rethrows:
+                    for a, t in atomic_facts(hflow, y):
+                        c = expr_str(prog, f, a)
+                        if "filename" in c and (("!=" in c and t) or ("==" in c and "!=" not in c and not t)):
+                            good += 1
+                            break
+                okh = bool(rethrows) and good == len(rethrows)
     r3.ob("use/nested include's own error is rethrown", okh, f.where, f["q"], why)
     r3.require(6, "use() obligations")
 
